@@ -146,13 +146,20 @@ class G(object):
     pure function of the case."""
     _verif_generated = True
 
-    def __init__(self, name, h, module=MODNAME):
+    def __init__(self, name, h, module=MODNAME, falsy=False):
         self.__name__ = name
         self.__qualname__ = name
         self.__module__ = module
         self.__doc__ = None
         self._h = h
         self._body = None
+        self._falsy = falsy
+
+    def __bool__(self):
+        # a component is any callable object: one that also is an (empty) container tests False
+        return not self._falsy
+
+    __nonzero__ = __bool__
 
     def __hash__(self):
         return self._h
@@ -346,7 +353,7 @@ def rule_expect(nd, args, limit):
 FLAVOURS = {
     # weights: faults = probability a node gets a non-value outcome
     "C01": dict(fault=0.25, seeded=0.15, disabled=0.08, observers=1, pool=0.35, enable_cfg=0.05, rp=0.25,
-                hostctx=0.1, graph_drop=0.1),
+                hostctx=0.1, graph_drop=0.1, wide=0.004),
     "C02": dict(fault=0.3, seeded=0.08, disabled=0.15, observers=0, pool=0.0, enable_cfg=0.3, rp=0.2,
                 hostctx=0.05, graph_drop=0.1),
     "C03": dict(fault=0.45, seeded=0.05, disabled=0.05, observers=2, pool=0.1, enable_cfg=0.0, rp=0.35,
@@ -354,7 +361,7 @@ FLAVOURS = {
     "C12": dict(fault=0.3, seeded=0.05, disabled=0.05, observers=1, pool=0.45, enable_cfg=0.05, rp=0.15,
                 hostctx=0.0, graph_drop=0.0),
     "C04": dict(fault=0.25, seeded=0.08, disabled=0.05, observers=1, pool=1.0, enable_cfg=0.0, rp=0.3,
-                hostctx=0.25, graph_drop=0.05),
+                hostctx=0.25, graph_drop=0.05, wide=0.012),
 }
 
 
@@ -367,11 +374,18 @@ def gen_program(st, flavour, tier):
     nmax = 16 if big else 12
     n = 1 + int(rp_.random() ** 1.5 * nmax)          # small programs favoured
     nclusters = rp_.choice([1, 1, 2, 2, 3, 4])
+    wide = rk.random() < fl.get("wide", 0.0)
+    if wide:
+        # many unconnected components: more sub-graphs than any batching constant a pool driver might use
+        n = rp_.choice([65, 66, 67, 70, 97, 127, 129, 130, 131, 140])
+        nclusters = n
     nodes = []
     cluster_of = []
     hostctx = rk.random() < fl["hostctx"]
     for i in range(n):
         cl = rp_.randrange(nclusters)
+        if wide:
+            cl = i if rp_.random() < 0.97 else rp_.randrange(max(1, i))
         prev = [j for j in range(i) if cluster_of[j] == cl]
         t = rp_.choice(["plain", "component", "component", "datasource", "datasource", "parser", "parser", "combiner",
                         "rule", "rule", "condition", "incident", "rp" if rp_.random() < fl["rp"] * 3 else "component", "rp" if rp_.random() < fl["rp"] * 3 else "datasource"])
@@ -419,8 +433,11 @@ def gen_program(st, flavour, tier):
             r_ = rp_.random()
             if r_ < 0.08 and (nd["req"] or nd["groups"]):
                 nd["decl_form"] = "requires_kw"             # deprecated: TYPE(requires=[...])
-            if len(nd["opt"]) == 1 and rp_.random() < 0.3:
-                nd["opt_single"] = True                      # optional=component instead of optional=[component]
+            if len(nd["opt"]) == 1 and rp_.random() < 0.3 and not nodes[nd["opt"][0]].get("falsy"):
+                # optional=component instead of optional=[component]; not with a component object that tests False: the
+                # decorator itself raises TypeError for it (`if optional and not isinstance(optional, list)`), the program
+                # cannot be declared -- noted in DESIGN 8.8, no listed property speaks about it
+                nd["opt_single"] = True
             if nd["req"] and rp_.random() < 0.06:
                 nd["req"] = nd["req"] + [nd["req"][0]]      # the same dependency listed twice
             if t == "plain" and prev and rp_.random() < 0.3:
@@ -446,6 +463,8 @@ def gen_program(st, flavour, tier):
             for e in range(4):
                 if rf.random() < fl["fault"]:
                     nd["eouts"][e] = rf.choice(["skip", "skip", "ce", "cpe", "boom", "verr", "none", "zero"])
+        if t != "rp" and rk.random() < 0.04:
+            nd["falsy"] = True                                # the component object itself tests False (bool(c) is False)
         if t != "rp" and rk.random() < fl["disabled"]:
             nd["enabled"] = False
             if rk.random() < 0.4:
@@ -476,6 +495,17 @@ def gen_program(st, flavour, tier):
                                   "on": rk.choice(["all", "all", "rule", "datasource", "parser", "plugin"]),
                                   "raises": fl["observers"] > 1 and rf.random() < 0.4,
                                   "glob": rk.random() < 0.3, "nameless": rk.random() < 0.3})
+    if flavour == "C02" and rk.random() < 0.15:
+        # a component that flips the enabled switch of a component DOWN-stream of itself while the evaluation is under
+        # way (dr.set_enabled from a component body, as a configuration-loading component or an observer may do): the
+        # switch is looked at right before a component is processed.  Down-stream only: every valid order has the
+        # toggler first, so the outcome is a function of the program.
+        for _ in range(rk.choice([1, 1, 2])):
+            cands = [(i, j) for j in range(n) for i in sorted(closure(nodes, [j]) - set([j]))
+                     if nodes[i]["type"] != "rp" and nodes[j]["type"] != "rp"]
+            if cands:
+                i, j = cands[rk.randrange(len(cands))]
+                nodes[i].setdefault("toggles", []).append([j, (not nodes[j]["enabled"]) if rk.random() < 0.8 else nodes[j]["enabled"]])
     if rk.random() < fl["enable_cfg"]:
         cfgs = []
         for _ in range(rk.randint(0, 3)):
@@ -508,7 +538,7 @@ def gen_driver(st, case, flavour, kinds=None):
         k = k[:-2]
     d = {"kind": k}
     if k != "order" and not case.get("graph_drop") and rs.random() < 0.25:
-        d["entry"] = rs.choice(["list", "single"])        # dr.run([components]) / dr.run(component) instead of a graph dict
+        d["entry"] = rs.choice(["list", "single", "group"])        # dr.run([components]) / dr.run(component) / the group's table
     if not k.endswith("_n") and rs.random() < 0.1:
         d["seed_broker"] = True                           # dr.Broker(seed_broker): a broker copied from a prepared one
     if k == "order":
@@ -740,6 +770,9 @@ def model(case, fixed_f1=True, pool_thread=False):
                     val[i] = res
                 if not calls[i]:
                     del calls[i]
+                else:
+                    for j, state in nd.get("toggles") or []:
+                        en[j] = state
                 continue
             args = (dv,)
         elif t == "datasource":
@@ -747,6 +780,8 @@ def model(case, fixed_f1=True, pool_thread=False):
         else:
             args = tuple(val.get(j) for j in deps_of(nd))
         calls[i] = [args]
+        for j, state in nd.get("toggles") or []:
+            en[j] = state                      # the body ran: the switch of a down-stream component is flipped
         oc = nd["out"]
         tag = name
         if oc == "slow":
@@ -812,7 +847,7 @@ def model(case, fixed_f1=True, pool_thread=False):
                     rec(i, "skip", "")
         else:
             generic(oc, tag)
-    return {"val": val, "calls": calls, "exc": sorted(exc), "missing": missing}
+    return {"val": val, "calls": calls, "exc": sorted(exc), "missing": missing, "en": en}
 
 
 # ------------------------------------------------------------------------------------------------
@@ -861,10 +896,16 @@ class World(object):
             world.fired(oc)
             raise make_exc(oc, tag)
 
+        def toggle():
+            for j, state in nd.get("toggles") or []:
+                dr.set_enabled(world.objs[j], state)
+                world.fired("enabled_switch_flipped_mid_run")
+
         if t == "parser":
             def body(v):
                 cv = canon(v)
                 ev.append(("call", name, (cv,)))
+                toggle()
                 if nd.get("work"):
                     clock.work(nd["work"])
                 if isinstance(v, tuple) and len(v) == 3 and v[0] == "elem":
@@ -876,6 +917,7 @@ class World(object):
             def body(*args):
                 cargs = tuple(canon(a) for a in args)
                 ev.append(("call", name, cargs))
+                toggle()
                 if nd.get("work"):
                     before = clock.signal.fired if clock.signal else 0
                     try:
@@ -897,7 +939,7 @@ class World(object):
             if nd["type"] == "rp":
                 objs.append(None)
             else:
-                objs.append(G(nd["name"], nd["h"], nd.get("module", MODNAME)))
+                objs.append(G(nd["name"], nd["h"], nd.get("module", MODNAME), falsy=bool(nd.get("falsy"))))
         for i, nd in enumerate(nodes):
             t = nd["type"]
             if t == "rp":
@@ -1093,7 +1135,14 @@ def run_driver(world, driver, graph):
     if entry and kind != "order" and not world.case.get("graph_drop"):
         # other documented forms of the 'components' argument: resolved by the real determine_components()
         tg = world.case["targets"] if world.case["targets"] is not None else list(range(len(world.objs)))
-        if entry == "single" and len(tg) == 1:
+        if entry == "group" and world.case["targets"] is None:
+            # the engine's own table of the default group (what dr.run() with no components evaluates), restricted to
+            # the generated program the way insights._run restricts it to the loaded plugins: the table's own value sets
+            graph = dict((k, v) for k, v in dr.COMPONENTS[dr.GROUPS.single].items() if k in world.idx)
+            world.fired("entry_group_table")
+        elif entry == "single" and len(tg) == 1 and not world.case["nodes"][tg[0]].get("falsy"):
+            # (a component object that tests False cannot be passed on its own: `components or <default group>` takes it
+            # for "no components given" and evaluates everything registered -- noted in DESIGN 8.8)
             graph = world.objs[tg[0]]
         else:
             graph = [world.objs[i] for i in tg]
@@ -1386,7 +1435,7 @@ def oracle_c02(case, driver, r, m):
             if _norm(gv) != _norm(v):
                 out.append(V("C02.missing", "rule-skip-response", "%s: got %s, expected skip response %s" % (name, gv, v)))
     # disabled / out-of-graph components leave no trace
-    en = enabled_map(case)
+    en = m.get("en") or enabled_map(case)
     ing = graph_nodes(case)
     for i, nd in enumerate(nodes):
         if i in case["seeded"]:
@@ -1553,6 +1602,15 @@ def remove_node(case, k):
             nd.pop("impls")
             nd["multi"] = False
             nd["elems"] = 0
+    for nd in nodes:
+        if nd.get("toggles"):
+            nd["toggles"] = [[j - 1 if j > k else j, st] for j, st in nd["toggles"] if j != k]
+    for i, nd in enumerate(nodes):
+        if nd.get("toggles"):
+            # only a component that is still down-stream of the toggler may be toggled (else the outcome depends on the order)
+            nd["toggles"] = [[j, st] for j, st in nd["toggles"] if j < len(nodes) and j != i and i in closure(nodes, [j])]
+            if not nd["toggles"]:
+                nd.pop("toggles")
     c["seeded"] = remap(c["seeded"])
     if c["targets"] is not None:
         c["targets"] = remap(c["targets"]) or None
